@@ -6,9 +6,7 @@ package utils
 
 // C02: the label-flow analysis runs on every parsed query; its unchecked type assertions must not fail for any
 // valid PromQL syntax tree (a string argument may be wrapped in parentheses).
-//@ func walkAggregation [C02]
-//@   safe type-assert
-//@   assumed callee-requires utils.includeLabel, utils.guaranteeLabel, utils.excludeLabel
+// (walkAggregation: see the C04 section below; its contract carries the C02 safety clause too)
 // (parsePromQLFunc: see the C04 section below; its contract carries the C02 safety clause too)
 
 // ---------------------------------------------------------------------------------------------
@@ -231,7 +229,10 @@ package utils
 // Guaranteed labels never grow. Each fact is asserted where the source is handed on (the append to src).
 //@ func parseAggregation [C04,C12]
 //@   option elemlinks split
+//@   assumed requires
 //@   requires n != nil
+//@   assumed ensures forall i int :: 0 <= i && i < len(src) ==> wfS(src[i]) && freshLists(src[i])
+//@   assumed ensures modifiesNone(src[0].IncludedLabels)
 //@   ghost res []Source
 //@   after call walkNode set res = result
 //@   loop 1 assumed invariant forall j int :: iter1 <= j && j < len(res) ==> wfS(res[j]) && sepS(res[j], n.Grouping)
@@ -373,3 +374,76 @@ package utils
 //@   ensures result ==> allG(srcs, name)
 //@   ensures !result ==> (exists j int :: 0 <= j && j < len(srcs) && !in(srcs[j].GuaranteedLabels, name))
 //@   loop 1 invariant 0 <= iter1 && iter1 <= len(srcs) && (forall j int :: 0 <= j && j < iter1 ==> in(srcs[j].GuaranteedLabels, name))
+
+// Aggregation operators. Every aggregation except topk / bottomk removes the metric name and keeps every other label
+// parseAggregation left possible; count_values adds its label; topk / bottomk pass the labels through unchanged.
+//@ func walkAggregation [C02,C04]
+//@   safe type-assert
+//@   option elemlinks split32
+//@   requires n != nil
+//@   assumed requires
+//@   ghost res []Source
+//@   ghost lit string
+//@   ghost litOK bool
+//@   after call parseAggregation set res = result
+//@   after call walkNode set res = result
+//@   after call stringLiteralValue set lit = result0
+//@   after call stringLiteralValue set litOK = result1
+//@   loop 1 assumed invariant forall j int :: iter1 <= j && j < len(res) ==> wfS(res[j]) && freshLists(res[j])
+//@   loop 1 invariant 0 <= iter1 && iter1 <= len(res) && n == old(n)
+//@   loop 2 assumed invariant forall j int :: iter2 <= j && j < len(res) ==> wfS(res[j]) && freshLists(res[j])
+//@   loop 2 invariant 0 <= iter2 && iter2 <= len(res) && n == old(n)
+//@   loop 3 assumed invariant forall j int :: iter3 <= j && j < len(res) ==> wfS(res[j]) && freshLists(res[j])
+//@   loop 3 invariant 0 <= iter3 && iter3 <= len(res) && n == old(n)
+//@   loop 4 assumed invariant forall j int :: iter4 <= j && j < len(res) ==> wfS(res[j]) && freshLists(res[j])
+//@   loop 4 invariant 0 <= iter4 && iter4 <= len(res) && n == old(n)
+//@   loop 5 assumed invariant forall j int :: iter5 <= j && j < len(res) ==> wfS(res[j]) && freshLists(res[j])
+//@   loop 5 invariant 0 <= iter5 && iter5 <= len(res) && n == old(n)
+//@   loop 6 assumed invariant forall j int :: iter6 <= j && j < len(res) ==> wfS(res[j]) && freshLists(res[j])
+//@   loop 6 invariant 0 <= iter6 && iter6 <= len(res) && n == old(n)
+//@   loop 7 assumed invariant forall j int :: iter7 <= j && j < len(res) ==> wfS(res[j]) && freshLists(res[j])
+//@   loop 7 invariant 0 <= iter7 && iter7 <= len(res) && n == old(n)
+//@   loop 8 assumed invariant forall j int :: iter8 <= j && j < len(res) ==> wfS(res[j]) && freshLists(res[j])
+//@   loop 8 invariant 0 <= iter8 && iter8 <= len(res) && n == old(n)
+//@   loop 9 assumed invariant forall j int :: iter9 <= j && j < len(res) ==> wfS(res[j]) && freshLists(res[j])
+//@   loop 9 invariant 0 <= iter9 && iter9 <= len(res) && n == old(n)
+//@   loop 10 assumed invariant forall j int :: iter10 <= j && j < len(res) ==> wfS(res[j]) && freshLists(res[j])
+//@   loop 10 invariant 0 <= iter10 && iter10 <= len(res) && n == old(n)
+//@   loop 11 assumed invariant forall j int :: iter11 <= j && j < len(res) ==> wfS(res[j]) && freshLists(res[j])
+//@   loop 11 invariant 0 <= iter11 && iter11 <= len(res) && n == old(n)
+//@   loop 12 assumed invariant forall j int :: iter12 <= j && j < len(res) ==> wfS(res[j]) && freshLists(res[j])
+//@   loop 12 invariant 0 <= iter12 && iter12 <= len(res) && n == old(n)
+//@   at call append#1 assert !canHave(s, "__name__")
+//@   at call append#1 assert forall x string :: x != "__name__" && canHave(res[iter1-1], x) ==> canHave(s, x)
+//@   at call append#1 assert subset(s.GuaranteedLabels, res[iter1-1].GuaranteedLabels)
+//@   at call append#2 assert !canHave(s, "__name__")
+//@   at call append#2 assert forall x string :: x != "__name__" && canHave(res[iter2-1], x) ==> canHave(s, x)
+//@   at call append#2 assert subset(s.GuaranteedLabels, res[iter2-1].GuaranteedLabels)
+//@   at call append#3 assert !canHave(s, "__name__")
+//@   at call append#3 assert forall x string :: x != "__name__" && canHave(res[iter3-1], x) ==> canHave(s, x)
+//@   at call append#3 assert subset(s.GuaranteedLabels, res[iter3-1].GuaranteedLabels)
+//@   at call append#4 assert !canHave(s, "__name__")
+//@   at call append#4 assert forall x string :: x != "__name__" && canHave(res[iter4-1], x) ==> canHave(s, x)
+//@   at call append#4 assert subset(s.GuaranteedLabels, res[iter4-1].GuaranteedLabels)
+//@   at call append#5 assert !canHave(s, "__name__")
+//@   at call append#5 assert forall x string :: x != "__name__" && canHave(res[iter5-1], x) ==> canHave(s, x)
+//@   at call append#5 assert subset(s.GuaranteedLabels, res[iter5-1].GuaranteedLabels)
+//@   at call append#6 assert !canHave(s, "__name__")
+//@   at call append#6 assert forall x string :: x != "__name__" && canHave(res[iter6-1], x) ==> canHave(s, x)
+//@   at call append#6 assert subset(s.GuaranteedLabels, res[iter6-1].GuaranteedLabels)
+//@   at call append#7 assert !canHave(s, "__name__")
+//@   at call append#7 assert forall x string :: x != "__name__" && canHave(res[iter7-1], x) ==> canHave(s, x)
+//@   at call append#7 assert subset(s.GuaranteedLabels, res[iter7-1].GuaranteedLabels)
+//@   at call append#8 assert !canHave(s, "__name__")
+//@   at call append#8 assert forall x string :: x != "__name__" && canHave(res[iter8-1], x) ==> canHave(s, x)
+//@   at call append#8 assert subset(s.GuaranteedLabels, res[iter8-1].GuaranteedLabels)
+//@   at call append#10 assert !canHave(s, "__name__")
+//@   at call append#10 assert forall x string :: x != "__name__" && canHave(res[iter10-1], x) ==> canHave(s, x)
+//@   at call append#10 assert subset(s.GuaranteedLabels, res[iter10-1].GuaranteedLabels)
+//@   at call guaranteeLabel#1 assert forall x string :: canHave(res[iter9-1], x) ==> canHave(arg0, x)
+//@   at call excludeLabel#9 assert forall x string :: canHave(res[iter9-1], x) ==> canHave(arg0, x)
+//@   at call append#9 assert !canHave(s, "__name__")
+//@   at call append#9 assert forall x string :: x != "__name__" && canHave(res[iter9-1], x) ==> canHave(s, x)
+//@   at call append#9 assert litOK && lit != "__name__" ==> canHave(s, lit)
+//@   at call append#11 assert sameLists(s, res[iter11-1]) && s.FixedLabels == res[iter11-1].FixedLabels
+//@   at call append#12 assert sameLists(s, res[iter12-1]) && s.FixedLabels == res[iter12-1].FixedLabels
